@@ -17,6 +17,7 @@ type Config struct {
 	Replay string
 	Prop   string
 	N      int // case budget override (0 = tier default)
+	Repo   string
 }
 
 var streams = map[string]func(*Config, *Result) error{}
@@ -30,6 +31,7 @@ func main() {
 	flag.StringVar(&cfg.Replay, "replay", "", "replay file")
 	flag.StringVar(&cfg.Prop, "prop", "", "property id (selects oracles/verdicts)")
 	flag.IntVar(&cfg.N, "n", 0, "case budget override")
+	flag.StringVar(&cfg.Repo, "repo", "/repo", "source tree the AST facts are extracted from")
 	seed := flag.String("seed", os.Getenv("VERIF_SEED"), "seed")
 	flag.Parse()
 	if *seed != "" {
